@@ -48,6 +48,31 @@ def _pool(test, rule, nontriv, quick=12000, thorough=150000, extra_assume=None):
 
 
 PROPS.update({
+    "C17": dict(kind="harness", parts=[dict(pkg="./cfg", test="TestC17", replay_key="text"), dict(pkg="./poolsim", test="TestC17Pool", replay_key="ops")],
+                quick=dict(checks=15000, shards=4, timeout=600),
+                thorough=dict(checks=200000, shards=16, timeout=3000, fuzz=("FuzzC17", 90)),
+                rule="two generators. (1) JSON texts of ApiConfig built from a drawn message by a schema-driven renderer - valid by construction (camelCase or snake_case names, numbers as "
+                     "numbers / integral floats / exponents / strings, enums by name or number incl. unknown numbers, null for singular fields, arbitrary whitespace and order, zero values written or omitted) "
+                     "or carrying exactly one of 28 injected faults - checked for accept/reject, equality with the expected message and a lossless round trip; every 10th valid case also goes through "
+                     "NewGCPMultiEndpoint (caller's object unchanged, GCPConfig() equal, no shared sub-objects, mutations on either side invisible). (2) pool histories (profile 'cfg': fields absent/zero, "
+                     "no channelPool, no methods, nil/foreign/alternative configs before and after the first accepted one) in which the effective configuration is observed behaviourally against a model that "
+                     "applies the documented defaults 1/4/100 itself (initial size, growth limit, saturation threshold, method routing); after every resolver update the caller's config object is compared with a "
+                     "pre-call clone and then scribbled over. Non-trivial = config with a defaulted and an explicitly set field and >=2 method entries (texts) / a later or nil config plus size- or routing-relevant "
+                     "picks (histories); distinct = FNV-1a of the canonical JSON of the case. Thorough adds native differential fuzzing of the parser against protojson.",
+                assume=POOL_ASSUME + ["acceptance classes of protojson were validated against the parser on the unchanged tree (DESIGN §4 C17)",
+                                      "method names listed in several entries are generated but only checked for absence of panics"]),
+    "C12": dict(kind="harness", pkg="./icept", test="TestC12",
+                quick=dict(checks=10000, shards=4, timeout=600),
+                thorough=dict(checks=150000, shards=16, timeout=3000),
+                rule="stream programs: per-creation outcomes (ok / error / blocks until the context ends), up to 14 steps distributed over a sender, a receiver and a third goroutine "
+                     "(SendMsg, RecvMsg, CloseSend, Header, Trailer, Context, context cancellation or deadline, message delivery), fake underlying stream that records every call; "
+                     "executed in a synctest bubble, synctest.Wait() after each step decides returned vs durably blocked. Oracle: no stream before the first SendMsg, exactly one after a success, "
+                     "creating context carries the first message and the caller's values, early RecvMsg blocks until creation and is then delegated with its argument / returns the creation error / returns when the context ends, "
+                     "sends reach the underlying stream unchanged and in order, post-creation methods return what the underlying stream returns, nothing panics, nothing hangs (real-time watchdog). "
+                     "Unary interceptor: all 162 combinations of method/options/request kind/error kind/deadline are enumerated on every run. Non-trivial = a method issued before creation, cancellation "
+                     "while a receiver waits, or a SendMsg after a failed creation; distinct = FNV-1a of the canonical JSON of the program.",
+                assume=COMMON_ASSUME + ["gRPC's stream concurrency contract is respected by the generator (one sender goroutine for SendMsg/CloseSend, one receiver for RecvMsg)",
+                                        "while a blocking stream creation holds the stream's mutex no other method is issued (mutex waits are not observable in a synctest bubble)"]),
     "C11": dict(kind="harness", pkg="./keys", test="TestC11",
                 quick=dict(checks=40000, shards=2, timeout=600),
                 thorough=dict(checks=400000, shards=16, timeout=3000, fuzz=("FuzzC11", 90)),
@@ -132,25 +157,53 @@ class Runner:
         shutil.copy(os.path.join(self.here, "harness", "go.sum"), os.path.join(self.bdir, "go.sum"))
         return None
 
+    def parts(self):
+        return self.spec.get("parts") or [dict(pkg=self.spec["pkg"], test=self.spec["test"])]
+
     def compile(self):
-        self.bin = os.path.join(self.bdir, "t.bin")
-        cmd = [GO, "test", "-c", "-tags", "verif", "-overlay", self.ov, "-modfile", self.modfile, "-vet=off", "-o", self.bin]
-        if self.spec.get("race"):
-            cmd.append("-race")
-        cmd.append(self.spec["pkg"])
-        r = subprocess.run(cmd, cwd=os.path.join(self.here, "harness"), env=self.env(), capture_output=True, text=True)
-        if r.returncode != 0 or not os.path.exists(self.bin):
-            sys.stdout.write(r.stdout + r.stderr)
-            return "build failed"
+        self.bins = {}
+        for part in self.parts():
+            pkg = part["pkg"]
+            if pkg in self.bins:
+                continue
+            out = os.path.join(self.bdir, "t_%s.bin" % pkg.strip("./").replace("/", "_"))
+            cmd = [GO, "test", "-c", "-tags", "verif", "-overlay", self.ov, "-modfile", self.modfile, "-vet=off", "-o", out]
+            if self.spec.get("race"):
+                cmd.append("-race")
+            cmd.append(pkg)
+            r = subprocess.run(cmd, cwd=os.path.join(self.here, "harness"), env=self.env(), capture_output=True, text=True)
+            if r.returncode != 0 or not os.path.exists(out):
+                sys.stdout.write(r.stdout + r.stderr)
+                return "build failed"
+            self.bins[pkg] = out
+        self.bin = self.bins[self.parts()[0]["pkg"]]
         return None
 
     # ---- running ---------------------------------------------------------------------------
     def shard_cmd(self, i, t):
-        cmd = [self.bin, "-test.run", "^%s$" % self.spec["test"], "-test.timeout", "%ds" % t["timeout"], "-test.v",
+        parts = self.parts()
+        part = parts[i % len(parts)]
+        if self.replay:
+            # a replay file names the part it belongs to through its shape; try the matching part
+            part = self.replay_part()
+        cmd = [self.bins[part["pkg"]], "-test.run", "^%s$" % part["test"], "-test.timeout", "%ds" % t["timeout"], "-test.v",
                "-rapid.checks", str(t["checks"]), "-rapid.seed", str(rapid_seed(self.seed, i)), "-rapid.nofailfile"]
         if "steps" in t:
             cmd += ["-rapid.steps", str(t["steps"])]
         return cmd
+
+    def replay_part(self):
+        parts = self.parts()
+        if len(parts) == 1:
+            return parts[0]
+        try:
+            d = json.load(open(self.replay))
+        except Exception:
+            return parts[0]
+        for part in parts:
+            if part.get("replay_key") and part["replay_key"] in d:
+                return part
+        return parts[0]
 
     def run(self):
         err = self.prepare() or self.compile()
